@@ -237,6 +237,13 @@ func (s *State) assume(t *Term) {
 		}
 		return
 	}
+	// g => (a and b): one assumption per conjunct, so that the quantifier-free conjuncts survive in the ground core
+	if t.Op == "=>" && len(t.Args) == 2 && t.Args[1].Op == "and" {
+		for _, a := range t.Args[1].Args {
+			s.assume(mk("Bool", "=>", t.Args[0], a))
+		}
+		return
+	}
 	s.pc = append(s.pc, t)
 }
 
